@@ -55,7 +55,8 @@ CloseStep(st) == [st EXCEPT !.open = FALSE]
 \* ---- rate envelope (token bucket only) -------------------------------------------------------------------
 \* bmax = largest burst allowance since the envelope was (re)started, credit = sum of rate_i * dt_i, cum = bits released
 EnvStart(st)         == [bmax |-> st.burst, credit |-> 0, cum |-> 0]
-EnvTime(env, r, dt)  == [env EXCEPT !.credit = @ + r * dt]
+\* (saturating: beyond 10^9 bits the bound is vacuous for any run and the sum must stay below 2^31)
+EnvTime(env, r, dt)  == IF env.credit >= 1000000000 THEN env ELSE [env EXCEPT !.credit = @ + r * Min(dt, 20000)]
 EnvBurst(env, b)     == [env EXCEPT !.bmax = Max(@, b)]
 EnvRelease(env, bits) == [env EXCEPT !.cum = @ + bits]
 EnvOK(env)           == env.cum <= env.bmax + env.credit
